@@ -7,7 +7,7 @@ Not decided: that every literal a user can write in a convention is matched by t
 """
 import re
 
-from ..facts import render, strip, fn_key, AnchorLost
+from ..facts import render, strip, fn_key, AnchorLost, cond_str
 from ..effects import field_reads
 from ..common import check_literal_reader
 from .. import model
@@ -199,3 +199,70 @@ def r5_lexical(ctx):
 
 
 RULES.append(('R5', r5_lexical))
+
+
+def r6_no_extra_skip(ctx):
+    """R6 a literal reader turns every capture into a token unless its text does not parse (or, for money, names no known
+    currency): the creation of the token is dominated only by loop conditions, the presence of capture groups, parse success and
+    the currency lookup. Any further condition on the text (a grouping check, a length test) drops literals that the statement
+    says denote a number in that convention."""
+    ctx.rule('R6', 'literal readers skip a capture only when it does not parse', floor=3)
+    HEAD_OK = re.compile(r'(Iterator(<.*>)?>?::next|::next|Regex::captures_iter|Captures::(<.*>::)?(name|get)|::parse|from_str_radix|read_currency|SmartCalcConfig::get_currency)$')
+    WRAP = re.compile(r'(Option|Result)::<.*>::(ok|as_ref|cloned|copied|as_deref|map_err|ok_or|ok_or_else)$|Try>::branch$')
+
+    class _A:
+        @staticmethod
+        def match(txt):
+            return True
+
+    def allowed(d):
+        """the decision is a discriminant of (wrappers around) an iterator step, a capture-group lookup, a parse or the
+        currency lookup"""
+        x = strip(d, transparent=False)
+        if x[0] != 'discr':
+            return False
+        x = strip(x[1], transparent=False)
+        for _ in range(8):
+            if x[0] == 'call' and WRAP.search(x[1]) and x[2]:
+                x = strip(x[2][0], transparent=False)
+            elif x[0] == 'field' or x[0] == 'downcast':
+                x = strip(x[1], transparent=False)
+            else:
+                break
+        return x[0] == 'call' and bool(HEAD_OK.search(x[1]))
+    for rx in (r'regex_tokinizer::number::number_regex_parser$', r'regex_tokinizer::money::money_regex_parser$', r'regex_tokinizer::percent::percent_regex_parser$'):
+        b = ctx.facts.one(rx)
+        ctx.fn(b)
+        sites = list(b.calls(r"Tokinizer::(<'a>::)?add_token_location$|Tokinizer::(<'a>::)?add_token_from_match$"))
+        if not sites:
+            raise AnchorLost('%s creates no token' % fn_key(b.path))
+        for bid, t in sites:
+            extra = []
+            for (_, d, v) in b.conditions(bid):
+                if allowed(d):
+                    continue
+                extra.append(cond_str(d, v))
+            # decisions inside the capture loop that separate "a token is created" from "this capture is skipped" (a `continue`
+            # in one arm of the reader does not dominate the creation site, so it is found on the CFG: a switch with one edge that
+            # can still reach the creation in this iteration and one that cannot)
+            loops = [L for L in b.loops() if bid in L['body']]
+            if loops:
+                L = min(loops, key=lambda l: len(l['body']))
+                head = L['head']
+                for sb in sorted(L['body']):
+                    tt = b.blocks[sb]['term']
+                    if tt['k'] != 'switch' or sb == bid:
+                        continue
+                    succ = [tg for _, tg in tt['vals']] + [tt['otherwise']]
+                    reach = [(x == bid) or b.can_reach(x, bid, avoid={head}) for x in succ]
+                    if any(reach) and not all(reach) and not b.can_reach(bid, sb, avoid={head}):
+                        de = b.expr(tt['discr'])
+                        if not allowed(de) and render(de) not in extra:
+                            extra.append(render(de))
+            if extra:
+                ctx.finding('R6', '%s/extra-condition' % fn_key(b.path), '%s creates its token only under %s: captures that parse but fail this test are dropped (the literal then denotes nothing)' % (fn_key(b.path), ' and '.join(x[:110] for x in extra[:2])), site=t['loc'])
+            else:
+                ctx.ok('R6', '%s: every capture that parses becomes a token' % fn_key(b.path), 'guard-dom', site=t['loc'])
+
+
+RULES.append(('R6', r6_no_extra_skip))
